@@ -375,7 +375,8 @@ def evaluate(cases):
             model_defined = v[2] is not None
             fail = None
             if model_defined:       # a valid configuration must not raise
-                fail = ("the constructor returns a frame (valid configuration)", r["error"])
+                fail = ("compute_batch_ranking returns a BatchRankingSummary whose feature names can be read (valid flags)"
+                        if c["kind"] == "batch" else "the constructor returns a frame (valid configuration)", r["error"])
             verdicts[i] = {"fail": fail, "impl": r, "raised": True, "n_new": 0}
             continue
         fail = None
